@@ -308,7 +308,8 @@ def _puls_payload(entries):
     for count, dur, explicit, long_form in entries:
         if not 1 <= count <= 0x7FFF or not 0 <= dur <= 0x7FFFFFFF:
             raise ValueError('PULS entry out of range: %r' % ((count, dur),))
-        if count > 1 or explicit:
+        if count > 1 or explicit or dur > 0xFFFF:
+            # (a first word above 0x8000 is always read as a repeat count, so a duration above 0xFFFF needs one)
             out += w16(0x8000 | count)
         if dur >= 0x8000 or long_form:
             out += w16(0x8000 | (dur >> 16)) + w16(dur & 0xFFFF)
@@ -531,10 +532,18 @@ def timing_blocks(fblocks):
 # ------------------------------------------------------------------ the signal
 
 class Model:
-    __slots__ = ('edges', 'ranges', 'zero_seq', 'ambiguous_pop', 'popped', 'adjustments', 'npulses')
+    __slots__ = ('edges', 'ranges', 'zero_seq', 'ambiguous_pop', 'popped', 'adjustments', 'npulses', 'preds', 't_end')
 
-def _bit_durations(tb):
-    """Durations of all bit pulses of a data block, in order."""
+def used_bits_pulses(tb):
+    """(pulses the used bits of the last byte specify, pulses a proportional cut of the whole last byte would keep)."""
+    last = tb.data[-1]
+    n_all = sum(len(tb.s1 if (last << j) & 0x80 else tb.s0) for j in range(8))
+    n_true = sum(len(tb.s1 if (last << j) & 0x80 else tb.s0) for j in range(tb.used))
+    return n_true, (n_all * tb.used) // 8
+
+def _bit_durations(tb, proportional_cut=False):
+    """Durations of all bit pulses of a data block, in order.
+    proportional_cut=True reproduces a known defect (used only to classify a witness, never as an expectation)."""
     data = tb.data
     table = []
     for v in range(256):
@@ -546,18 +555,35 @@ def _bit_durations(tb):
     for b in data[:-1]:
         durs.extend(table[b])
     last = data[-1]
+    if proportional_cut and not tb.has_zero_seq():
+        bt = table[last]
+        durs.extend(bt[:(len(bt) * tb.used) // 8])
+        return durs
     for j in range(tb.used):
         durs.extend(tb.s1 if (last << j) & 0x80 else tb.s0)
     return durs
 
-def model_edges(tbs, first_edge=0, polarity=0):
+QUIRKS = ('cut', 'lead', 'trail')
+
+def model_edges(tbs, first_edge=0, polarity=0, quirks=()):
     """Every pulse (including zero-length ones) ends with an edge. Returns a Model:
       edges      the edge list
       ranges     per timing block: dict(first=index of the edge at which the block's first pulse starts,
                  dstart/dend=index of the edge starting the data / ending the last bit pulse (None without data),
                  last=index of the block's last edge)
       zero_seq   some data block has a zero-length pulse in a bit sequence (compare with canonical())
+      preds      names of the known-defect shapes present on this tape (see below)
+      t_end      the clock after the last pulse
+
+    quirks: names of known defects of the code under test to reproduce. They are used only to decide whether a witness is
+    fully explained by a known mechanism; the expectation is always quirks=().
+      cut    used bits < 8 and bit sequences of different lengths: the last byte's pulses are cut proportionally
+      lead   a data block with zero-length bit pulses starts, after a pause, with an odd number of zero-length pulses:
+             the following pulse is added to the previous edge instead of being placed after the pause
+      trail  a data block with zero-length bit pulses ends with an odd number of them and has a tail pulse: the tail is
+             played as a new pulse instead of lengthening the last one (one zero-length toggle is forgotten)
     """
+    preds = set()
     pol = polarity % 2
     edges = [first_edge]
     if pol:
@@ -577,7 +603,7 @@ def model_edges(tbs, first_edge=0, polarity=0):
 
     nblocks = len(tbs)
     for i, tb in enumerate(tbs):
-        rg = {'first': len(edges) - 1, 'dstart': None, 'dend': None, 'last': None, 'tail': False}
+        rg = {'first': len(edges) - 1, 'dstart': None, 'dend': None, 'last': None, 'tail': False, 'gap': 0}
         if tb.pulses:
             adjust(tb.level)
             rg['first'] = len(edges) - 1
@@ -594,12 +620,34 @@ def model_edges(tbs, first_edge=0, polarity=0):
             if not tb.pulses:
                 rg['first'] = len(edges) - 1
             rg['dstart'] = len(edges) - 1
-            durs = _bit_durations(tb)
+            rg['gap'] = t - edges[-1]      # pauses since the last edge: they lengthen the first pulse as seen on the tape
+            if not tb.has_zero_seq() and len(tb.s0) != len(tb.s1) and tb.used < 8 and len(set(used_bits_pulses(tb))) == 2:
+                preds.add('cut')
+            durs = _bit_durations(tb, 'cut' in quirks)
+            extra_toggle = False
+            if tb.has_zero_seq() and durs:
+                lead = 0
+                while lead < len(durs) and durs[lead] == 0:
+                    lead += 1
+                trail = 0
+                while trail < len(durs) and durs[-1 - trail] == 0:
+                    trail += 1
+                if rg['gap'] > 0 and lead % 2 and lead < len(durs):
+                    preds.add('lead')
+                    if 'lead' in quirks:
+                        edges[-1] += durs[lead]
+                        t += durs[lead]
+                        durs = durs[lead + 1:]
+                if tb.tail and trail % 2:
+                    preds.add('trail')
+                    extra_toggle = 'trail' in quirks
             if durs:
                 acc = list(accumulate(durs, initial=t))
                 edges.extend(acc[1:])
                 t = acc[-1]
                 npulses += len(durs)
+            if extra_toggle:
+                edges.append(t)
             rg['dend'] = len(edges) - 1
             if tb.tail:
                 t += tb.tail
@@ -636,6 +684,8 @@ def model_edges(tbs, first_edge=0, polarity=0):
     m.zero_seq = any(tb.has_zero_seq() for tb in tbs)
     m.adjustments = adjustments
     m.npulses = npulses
+    m.preds = preds
+    m.t_end = t
     return m
 
 def canonical(edges):
@@ -657,14 +707,17 @@ def decodable(s0, s1):
     n = min(len(s0), len(s1))
     return tuple(s0[:n]) != tuple(s1[:n])
 
-def decode_bits(edges, start, end, s0, s1, tail):
+def decode_bits(edges, start, end, s0, s1, tail, gap=0):
     """Measure the distances between edges[start..end] and turn them back into bits.
     tail: duration of a tail pulse expected after the last bit (0 = none).
+    gap: silence (pauses) between edge `start` and the moment the data begins; it is part of the first measured distance.
     Returns (bits as a list of 0/1, None) or (None, reason)."""
     if not (0 <= start <= end < len(edges)):
         return None, 'range %d..%d outside the edge list (%d edges)' % (start, end, len(edges))
     seg = edges[start:end + 1]
     dist = [b - a for a, b in zip(seg, seg[1:])]
+    if gap and dist:
+        dist[0] -= gap
     if tail:
         if not dist or dist[-1] != tail:
             return None, 'last pulse in the range is %s, expected the tail pulse %d' % (dist[-1] if dist else None, tail)
